@@ -59,7 +59,9 @@ def check(run):
 
     # (1) header agreement through the real writer, every body length
     if th:
-        cases.append("wr_range\t0\t65535"); expect.append(None)
+        # every body length 0..65535; the cost grows with the length, so the ranges are dealt round-robin over the shards
+        rs = [(a, min(a + 255, 65535)) for a in range(0, 65536, 256)]
+        wr_cases = ["wr_range\t%d\t%d" % r for i in range(vlib.NPROC) for r in rs[i::vlib.NPROC]]
     else:
         cases.append("wr_range\t0\t1024"); expect.append(None)
         for a, b in ((4090, 4100), (32760, 32775), (65280, 65290), (65520, 65535)):
@@ -107,6 +109,11 @@ def check(run):
                 add(stream, [(0, len(stream))] if stream else [], "none", eof, len(pre) + 1, pre)
     mo = vlib.run_sharded(drv, cases, run.workdir, "c04_model")
     io = vlib.run_sharded(tr, cases, run.workdir, "c04_impl")
+    if th:
+        mo += vlib.run_sharded(drv, wr_cases, run.workdir, "c04_wr_model")
+        io += vlib.run_sharded(tr, wr_cases, run.workdir, "c04_wr_impl")
+        cases += wr_cases
+        expect += [None] * len(wr_cases)
     if len(mo) != len(io):
         raise vlib.MachineryError("model printed %d results, implementation %d" % (len(mo), len(io)))
     # expand expectation list to output lines (wr_range yields many lines)
